@@ -6,7 +6,7 @@ cd "$HERE"
 ids="$@"; [ -z "$ids" ] && ids=$(ls seeded | grep -E '^C[0-9]+[a-z]$')
 for sid in $ids; do
   prop=$(python3 -c "import json;m=json.load(open('$HERE/seeded/$sid/meta.json'));print(m.get('checked_with', '${sid:0:3}'))")
-  res=$(python3 tools/run_seeded.py seeded/$sid/patch.diff $prop 2>&1 | grep -E "^C[0-9]+ |^patch|^cannot")
+  res=$(python3 tools/run_seeded.py seeded/$sid/patch.diff $prop --save-regress $sid 2>&1 | grep -E "^C[0-9]+ |^patch|^cannot")
   echo "$sid  $res"
   echo "$sid  $res" >> seeded/RESULTS.txt
 done
